@@ -15,6 +15,13 @@ Theorem C01_predictions_spec G a r :
 Proof. exact (conj (expand_rule_total G a) (predictions_spec G a r)). Qed.
 Print Assumptions C01_predictions_spec.
 
+(* NULLABLE of calculate_sets (non-terminals): the bounded iteration reaches the set of non-terminals deriving
+   the empty string (the Earley recogniser itself does not consult it). *)
+Theorem C01_nullable_spec G (tok : Type) tmatch a :
+  In a (nullable_set G) <-> derives G tok tmatch [NT a] [].
+Proof. exact (nullable_set_spec G tok tmatch a). Qed.
+Print Assumptions C01_nullable_spec.
+
 (* The specification chart characterises the language: a completed start rule spanning the input exists in
    the chart iff the input is a sentence. *)
 Theorem C01_chart_is_language G (tok : Type) tmatch (w : list tok) start :
